@@ -43,14 +43,33 @@ VARIABLES stack,  \* open frames [h, body, id]; stack[1] = the layout itself
           text,   \* document so far (runs of ConfText)
           heap,   \* Tier 2: struct images, heap[1] = the layout
           cnt,    \* [secs, opts, rep]: items written so far, reports so far (Tier 2 count)
+          den,    \* Tier 1: what the document written so far denotes (a function of stack)
           obs
-vars == <<stack, text, heap, cnt, obs>>
+vars == <<stack, text, heap, cnt, den, obs>>
 
 L  == INSTANCE Layout WITH KindSet <- {"axis"}, MaxOps <- 0, kind <- "axis", t2 <- <<>>, t1 <- <<>>,
                            nid <- 0, ops <- 0, obs <- [a |-> "none"]
 CT == INSTANCE ConfText WITH Configs <- {}, OptNames <- {}, SecNames <- {}, Values <- {}, Decos <- {},
                              MaxNodes <- 0, MaxDepth <- 0, cfg <- [F |-> 0, A |-> 0], text <- <<>>,
                              stack <- <<>>, nn <- 0, obs <- [a |-> "none"]
+
+---------------------------------------------------------------------------
+(* Layout's tables, evaluated once (TLC evaluates constant definitions at   *)
+(* start-up; Layout's operators rebuild the table at every use)             *)
+Kinds == {"axis", "line", "text", "graph", "world"}
+PropsT == [k \in Kinds |-> L!Props(k)]
+ReadNamesT == [k \in Kinds |-> L!ReadNames(k)]
+Def1T == [k \in Kinds |-> L!Def1(k)]
+Def2T == [k \in Kinds |-> L!Def2(k)]
+NListedT == [k \in Kinds |-> L!NListed(k)]
+AllView1(k, a) == [nm \in ReadNamesT[k] |-> L!View1(k, a, nm)]
+AllView2(k, r) == [nm \in ReadNamesT[k] |-> L!View2(k, r, nm)]
+SetResolve(k, name) ==
+  LET hits == {i \in 1..Len(PropsT[k]) : \E e \in PropsT[k][i].set : L!NameHit(e, name)}
+  IN IF hits = {} THEN 0 ELSE CHOOSE i \in hits : \A j \in hits : i <= j
+ASSUME TablesAgree ==
+  \A k \in Kinds : /\ AllView1(k, Def1T[k]) = L!AllView1(k, L!Def1(k)) /\ AllView2(k, Def2T[k]) = L!AllView2(k, L!Def2(k))
+                    /\ \A nm \in L!CanonNames(k) \cup L!AliasNames(k) \cup L!ExtraSetNames(k) : SetResolve(k, nm) = L!SetResolve(k, nm)
 
 ---------------------------------------------------------------------------
 (* the file format of mpt::layout and the name flags of mpt::config_parser *)
@@ -155,20 +174,20 @@ Lookup1(kind, nm, scopes) ==       \* innermost scope first, first of that kind 
        IF m # {} THEN scopes[1][MinOf(m)] ELSE Lookup1(kind, nm, SubSeq(scopes, 2, Len(scopes)))
 
 Determinate(kind, name, v) ==
-  LET i == L!SetResolve(kind, name) IN
-  IF i = 0 \/ v.f = "none" THEN TRUE ELSE DenT(L!Props(kind)[i].pt, v).ret \in {"ok", "refused"}
+  LET i == SetResolve(kind, name) IN
+  IF i = 0 \/ v.f = "none" THEN TRUE ELSE DenT(PropsT[kind][i].pt, v).ret \in {"ok", "refused"}
 
 RECURSIVE Apply1(_, _, _, _)
 Apply1(kind, a0, body, n) ==       \* Set for every option in order
   IF n = 0 THEN [a |-> a0, rep |-> 0]
   ELSE LET pr == Apply1(kind, a0, body, n - 1)  en == body[n] IN
        IF en.e # "opt" THEN pr
-       ELSE LET i == L!SetResolve(kind, en.name) IN
+       ELSE LET i == SetResolve(kind, en.name) IN
             IF en.v.f = "none"          \* no value: the documented default
             THEN IF i = 0 THEN pr
-                 ELSE [pr EXCEPT !.a = L!Put1(kind, pr.a, L!Props(kind)[i].name, L!Props(kind)[i].pt.def)]
+                 ELSE [pr EXCEPT !.a = L!Put1(kind, pr.a, PropsT[kind][i].name, PropsT[kind][i].pt.def)]
             ELSE IF i = 0 THEN [pr EXCEPT !.rep = @ + 1]
-            ELSE LET p == L!Props(kind)[i]  r == DenT(p.pt, en.v) IN
+            ELSE LET p == PropsT[kind][i]  r == DenT(p.pt, en.v) IN
                  IF r.ret = "ok" THEN [pr EXCEPT !.a = L!Put1(kind, pr.a, p.name, r.den)]
                  ELSE [pr EXCEPT !.rep = @ + 1]
 
@@ -184,7 +203,7 @@ Items1(body, n, outer) ==          \* the objects the sections of a group body d
             ELSE LET scopes == <<pr.items>> \o outer
                      pars == [j \in 1..Len(en.h.par) |-> Lookup1(kind, en.h.par[j], scopes)]
                  IN IF \E j \in 1..Len(pars) : pars[j].kind = "" THEN [pr EXCEPT !.ok = FALSE]
-                    ELSE LET base == IF pars = <<>> THEN L!Def1(kind) ELSE pars[Len(pars)].a
+                    ELSE LET base == IF pars = <<>> THEN Def1T[kind] ELSE pars[Len(pars)].a
                              ap == Apply1(kind, base, en.body, Len(en.body))
                              sub == IF kind = "graph" THEN Items1(en.body, Len(en.body), scopes) ELSE NoItems
                              o == [nm |-> en.h.name, kind |-> kind, a |-> ap.a, mem |-> sub.items]
@@ -208,10 +227,10 @@ Bound1(kind, str, own, top) ==
        IN [j \in 1..Len(S) |-> [nm |-> own[S[j]].nm, o |-> own[S[j]]]]
   ELSE LET w == WordsOf(str) IN [j \in 1..Len(w) |-> [nm |-> w[j], o |-> Lookup1(kind, w[j], <<own, top>>)]]
 BoundOK(b) == \A j \in 1..Len(b) : b[j].o.kind # ""
-PBound(b) == [j \in 1..Len(b) |-> [name |-> L!RLE(b[j].nm), kind |-> b[j].o.kind, p |-> L!AllView1(b[j].o.kind, b[j].o.a)]]
+PBound(b) == [j \in 1..Len(b) |-> [name |-> L!RLE(b[j].nm), kind |-> b[j].o.kind, p |-> AllView1(b[j].o.kind, b[j].o.a)]]
 RECURSIVE PObj(_, _)
 PObj(o, top) ==
-  [name |-> L!RLE(o.nm), kind |-> o.kind, p |-> L!AllView1(o.kind, o.a),
+  [name |-> L!RLE(o.nm), kind |-> o.kind, p |-> AllView1(o.kind, o.a),
    items |-> [i \in 1..Len(o.mem) |-> PObj(o.mem[i], top)],
    axes |-> IF o.kind = "graph" THEN PBound(Bound1("axis", o.a.axes, o.mem, top)) ELSE <<>>,
    worlds |-> IF o.kind = "graph" THEN PBound(Bound1("world", o.a.worlds, o.mem, top)) ELSE <<>>]
@@ -242,11 +261,11 @@ CItems(body, n) ==
   ELSE LET pr == CItems(body, n - 1)  en == body[n] IN
        IF en.e # "sec" \/ KindOf(en.h.kw) = "" THEN pr
        ELSE LET kind == KindOf(en.h.kw)
-                ap == Apply1(kind, L!Def1(kind), en.body, Len(en.body))
+                ap == Apply1(kind, Def1T[kind], en.body, Len(en.body))
                 nopt == Cardinality({j \in 1..Len(en.body) : en.body[j].e = "opt"})
                 nrst == Cardinality({j \in 1..Len(en.body) : en.body[j].e = "opt" /\ en.body[j].v.f = "none"
-                                                                /\ L!SetResolve(kind, en.body[j].name) = 0})
-            IN Append(pr, [name |-> L!RLE(en.h.name), kind |-> kind, p |-> L!AllView1(kind, ap.a),
+                                                                /\ SetResolve(kind, en.body[j].name) = 0})
+            IN Append(pr, [name |-> L!RLE(en.h.name), kind |-> kind, p |-> AllView1(kind, ap.a),
                            nset |-> nopt - ap.rep - nrst,
                            items |-> IF kind = "graph" THEN CItems(en.body, Len(en.body)) ELSE <<>>])
 
@@ -264,11 +283,11 @@ Find2(hp, chain, kind, nm) ==      \* collection::relation::find through the cha
 RECURSIVE CopyProps2(_, _, _, _)
 CopyProps2(kind, r, src, n) ==     \* object::set(const object &): every listed property, one by one
   IF n = 0 THEN r
-  ELSE LET nm == L!Props(kind)[n].name IN
+  ELSE LET nm == PropsT[kind][n].name IN
        L!Put2(kind, CopyProps2(kind, r, src, n - 1), nm, L!View2(kind, src, nm), 7)
 RECURSIVE Inherit2(_, _, _, _)
 Inherit2(hp, kind, ids, n) ==
-  IF n = 0 THEN L!Def2(kind) ELSE CopyProps2(kind, Inherit2(hp, kind, ids, n - 1), hp[ids[n]].r, L!NListed(kind))
+  IF n = 0 THEN Def2T[kind] ELSE CopyProps2(kind, Inherit2(hp, kind, ids, n - 1), hp[ids[n]].r, NListedT[kind])
 
 Chain(st) == LET g == SelectSeq(st, LAMBDA f : f.id > 0) IN [i \in 1..Len(g) |-> g[Len(g) + 1 - i].id]
 
@@ -299,20 +318,20 @@ BindAll2(hp, n) ==                 \* over the layout's items in order
 Bound(hp) == BindAll2(hp, Len(hp[1].items))
 
 VBound2(hp, list) == [j \in 1..Len(list) |-> [name |-> L!RLE(list[j].nm), kind |-> hp[list[j].id].kind,
-                                              p |-> L!AllView2(hp[list[j].id].kind, hp[list[j].id].r)]]
+                                              p |-> AllView2(hp[list[j].id].kind, hp[list[j].id].r)]]
 RECURSIVE VObj2(_, _, _)
 VObj2(hp, nm, id) ==
-  [name |-> L!RLE(nm), kind |-> hp[id].kind, p |-> L!AllView2(hp[id].kind, hp[id].r),
+  [name |-> L!RLE(nm), kind |-> hp[id].kind, p |-> AllView2(hp[id].kind, hp[id].r),
    items |-> [i \in 1..Len(hp[id].items) |-> VObj2(hp, hp[id].items[i].nm, hp[id].items[i].id)],
    axes |-> VBound2(hp, hp[id].axes), worlds |-> VBound2(hp, hp[id].worlds)]
-View2(hp, rep) ==
-  LET b == Bound(hp)
-      gi == SelectSeq(hp[1].items, LAMBDA it : hp[it.id].kind = "graph")
+View2B(hp, b, rep) ==      \* b = Bound(hp)
+  LET gi == SelectSeq(hp[1].items, LAMBDA it : hp[it.id].kind = "graph")
   IN IF ~b.ok THEN [ret |-> "failed"]
      ELSE [ret |-> "ok", lay |-> [alias |-> hp[1].r.alias, font |-> hp[1].r.font],
            items |-> [i \in 1..Len(hp[1].items) |-> VObj2(b.hp, hp[1].items[i].nm, hp[1].items[i].id)],
            graphs |-> [i \in 1..Len(gi) |-> L!RLE(gi[i].nm)],
            rep |-> rep]
+View2(hp, rep) == View2B(hp, Bound(hp), rep)
 
 ---------------------------------------------------------------------------
 (* rendering *)
@@ -321,7 +340,9 @@ DTight  == D("none", "none", "none", "none", "none", 0, "tight")
 DSpaced == D("nl", "none", "sp", "sp", "none", 0, "spaced")
 DCom    == D("com", "spcom", "tab", "none", "sp", 34, "wide")
 DBlank  == D("blank", "nl", "mix", "sp2", "mix", 39, "spaced")
-Decos == IF Mode = "mc" THEN {DTight} ELSE {DTight, DSpaced, DCom, DBlank}
+DecoList == <<DTight, DSpaced, DCom, DBlank>>
+(* exhaustive / export runs: one profile per item, picked by the length of the document so far and the item *)
+DecoPick(salt) == IF Mode = "mc" THEN DTight ELSE DecoList[((CT!RLen(text) + salt) % 4) + 1]
 
 RECURSIVE JoinWords(_, _)
 JoinWords(ws, sep) == IF ws = <<>> THEN <<>> ELSE IF Len(ws) = 1 THEN ws[1] ELSE ws[1] \o sep \o JoinWords(SubSeq(ws, 2, Len(ws)), sep)
@@ -351,7 +372,8 @@ Top == stack[Len(stack)]
 TopKind == IF Top.id > 0 THEN heap[Top.id].kind ELSE ""
 Exp1(st) == Denote(Fold(st))
 Case(a, arg, txt, st) ==
-  obs' = [a |-> a, arg |-> arg @@ [text |-> RleOfRuns(txt)], exp |-> Exp1(st)]
+  /\ den' = Exp1(st)
+  /\ obs' = [a |-> a, arg |-> arg @@ [text |-> RleOfRuns(txt)], exp |-> den']
 
 UnitXY(r) == \A f \in {"x", "y"} : r[f][1] = 0 /\ r[f][2] = 0 /\ r[f][3] \in 0..2
 
@@ -370,9 +392,9 @@ AddOption(name, v, d) ==
           ELSE /\ heap' = [heap EXCEPT ![1].r[LayName(name)] = RleOfRuns(vr)]
                /\ cnt' = [cnt EXCEPT !.opts = @ + 1]
      ELSE /\ Determinate(k, name, v)
-          /\ LET i == L!SetResolve(k, name) IN
+          /\ LET i == SetResolve(k, name) IN
              IF i = 0 THEN UNCHANGED heap /\ cnt' = [cnt EXCEPT !.opts = @ + 1, !.rep = @ + 1]
-             ELSE LET p == L!Props(k)[i]  r == DenT(p.pt, v) IN
+             ELSE LET p == PropsT[k][i]  r == DenT(p.pt, v) IN
                   IF r.ret = "ok"
                   THEN /\ heap' = [heap EXCEPT ![Top.id].r = L!Put2(k, @, p.name, r.den, 5)]
                        /\ cnt' = [cnt EXCEPT !.opts = @ + 1]
@@ -386,9 +408,9 @@ AddReset(name, d) ==
   /\ CT!NameOK(CT!B(name), OptFlags) /\ CT!NameLex(FF, CT!B(name)) /\ name # <<>> /\ CT!GapOK(FF, d.g)
   /\ text' = CT!Cat(text, ResetText(name, d))
   /\ stack' = [stack EXCEPT ![Len(stack)].body = Append(@, Opt(name, NoVal))]
-  /\ LET i == L!SetResolve(k, name) IN
+  /\ LET i == SetResolve(k, name) IN
      IF i = 0 THEN UNCHANGED heap
-     ELSE heap' = [heap EXCEPT ![Top.id].r = L!Put2(k, @, L!Props(k)[i].name, L!Props(k)[i].pt.def, 5)]
+     ELSE heap' = [heap EXCEPT ![Top.id].r = L!Put2(k, @, PropsT[k][i].name, PropsT[k][i].pt.def, 5)]
   /\ cnt' = [cnt EXCEPT !.opts = @ + 1]
   /\ Case("load", [x |-> 0], CT!Cat(text', Closers(stack')), stack')
 
@@ -435,14 +457,14 @@ CopyModes == {"clone", "null", "empty", "props"}
 Probe(a, mode) ==
   /\ Len(stack) = 1 /\ cnt.secs > 0
   /\ mode = "props" => \A i \in 2..Len(heap) : heap[i].kind = "text" => UnitXY(heap[i].r)    \* open finding of C20
-  /\ UNCHANGED <<stack, text, heap, cnt>>
+  /\ UNCHANGED <<stack, text, heap, cnt, den>>
   /\ obs' = [a |-> a, arg |-> IF a = "copy" THEN [mode |-> mode] ELSE [x |-> 0],
-             exp |-> LET e == Exp1(stack) IN IF e.ret = "ok" THEN [ret |-> "ok", lay |-> e.lay, items |-> e.items, graphs |-> e.graphs]
+             exp |-> LET e == den IN IF e.ret = "ok" THEN [ret |-> "ok", lay |-> e.lay, items |-> e.items, graphs |-> e.graphs]
                                              ELSE [ret |-> "failed"]]
 (* the C path on the same text *)
 CLoad ==
   /\ Len(stack) = 1 /\ cnt.secs > 0
-  /\ UNCHANGED <<stack, text, heap, cnt>>
+  /\ UNCHANGED <<stack, text, heap, cnt, den>>
   /\ obs' = [a |-> "cload", arg |-> [text |-> RleOfRuns(text)],
              exp |-> [ret |-> "ok", items |-> CItems(stack[1].body, Len(stack[1].body))]]
 
@@ -452,50 +474,60 @@ TextOnly(S) == {v \in S : v.f \in TextForms}
 LongStr == {L!Rle(<<120, 249>>), L!Rle(<<120, 250>>), L!Rle(<<121, 300>>)}
 StrExtra == {L!Txt(<<104, 105, 32, 116, 104, 101, 114, 101>>), L!Txt(<<32, 120, 32>>), L!Txt(<<97, 39, 98>>), L!Num(14, "dec")}
 ValsOf(pt, full) ==
-  IF pt.t = "str" THEN TextOnly(L!StrVals) \cup StrExtra \cup (IF full /\ Mode = "gent" THEN LongStr ELSE {})
+  IF pt.t = "str" THEN (IF full THEN TextOnly(L!StrVals) \cup StrExtra \cup LongStr ELSE {L!Txt(W_abc), L!Txt(<<104, 105, 32, 116, 104, 101, 114, 101>>), L!Rle(<<121, 300>>)})
   ELSE IF full THEN TextOnly(L!Vals(pt)) ELSE TextOnly(L!FewVals(pt))
 BindVals == {L!Txt(c) : c \in {NM_a, NM_b, NM_w, NM_ab, NM_ba, NM_aa, NM_atab_b}}
 OkName(nm) == CT!NameOK(CT!B(nm), OptFlags) /\ CT!NameLex(FF, CT!B(nm))
 
+(* export runs: the full alphabet (every property x every text value class x spelling) is offered for the    *)
+(* first option of the first section(s) of a description, a medium one (every property x three values) in   *)
+(* the next section; later options and sections come from the small alphabet                                *)
+Level == CASE Mode = "gen"  -> (IF cnt.opts = 0 /\ cnt.secs = 1 THEN 2 ELSE IF cnt.opts = 0 /\ cnt.secs = 2 THEN 1 ELSE 0)
+           [] Mode = "gent" -> (IF cnt.opts <= 1 /\ cnt.secs <= 2 THEN 2 ELSE IF cnt.opts <= 1 /\ cnt.secs = 3 THEN 1 ELSE 0)
+           [] OTHER -> 0
+FullHere == Level > 0
 OptChoices(k) ==           \* (name, value) pairs offered inside a section of kind k
   IF k = "" THEN {<<N_title, L!Txt(W_abc)>>}
   ELSE IF k = "layout" THEN
        {<<N_name, L!Txt(W_abc)>>, <<N_alias, L!Txt(<<76, 32, 49>>)>>, <<N_ALIAS, L!Txt(W_red)>>, <<N_font, L!Txt(W_abc)>>,
         <<N_Font, L!Txt(W_blue)>>, <<N_bogus, L!Txt(W_abc)>>, <<N_title, L!Num(2, "dec")>>}
-       \cup (IF Mode \in {"gen", "gent"} THEN {<<N_name, v>> : v \in LongStr} \cup {<<N_font, v>> : v \in LongStr} ELSE {})
-  ELSE IF Mode = "mc" THEN
+       \cup (IF Mode \in {"gen", "gent"} /\ FullHere THEN {<<N_name, v>> : v \in LongStr} \cup {<<N_font, v>> : v \in LongStr} ELSE {})
+  ELSE IF Mode = "mc" \/ ~FullHere THEN
        CASE k = "axis"  -> {<<N_title, L!Txt(W_abc)>>, <<N_title, L!Txt(W_red)>>, <<N_exp, L!Num(200000, "dec")>>, <<N_bogus, L!Txt(W_abc)>>}
          [] k = "world" -> {<<N_alias, L!Txt(W_abc)>>, <<N_width, L!Num(200, "dec")>>, <<N_cyc, L!Num(14, "dec")>>}
          [] k = "graph" -> {<<N_axes, v>> : v \in BindVals \ {L!Txt(NM_atab_b), L!Txt(NM_aa)}} \cup {<<N_worlds, L!Txt(NM_a)>>, <<N_worlds, L!Txt(NM_w)>>, <<N_fg, L!Txt(W_red)>>}
          [] k = "text"  -> {<<N_value, L!Txt(W_abc)>>, <<N_x, L!Num(1, "dec")>>, <<N_pos, L!Num2(2, 0)>>}
          [] OTHER       -> {<<N_color, L!Txt(W_red)>>, <<N_x1, L!Num(3, "dec")>>}
-  ELSE LET full == Mode = "gent"
-           canon == {x \in L!CanonNames(k) : OkName(x)}
-           other == {x \in L!AliasNames(k) \cup L!ExtraSetNames(k) : OkName(x)} IN
-       UNION {{<<nc, v>> : v \in ValsOf(L!PropOfName(k, nc).pt, TRUE)} : nc \in canon} \cup
-       UNION {{<<nc, v>> : v \in ValsOf(L!PropOfName(k, nc).pt, full)} : nc \in other} \cup
+  ELSE LET canon == {x \in L!CanonNames(k) : OkName(x)}
+           other == IF Level = 2 THEN {x \in L!AliasNames(k) \cup L!ExtraSetNames(k) : OkName(x)} ELSE {} IN
+       UNION {{<<nc, v>> : v \in ValsOf(L!PropOfName(k, nc).pt, Level = 2)} : nc \in canon} \cup
+       UNION {{<<nc, v>> : v \in ValsOf(L!PropOfName(k, nc).pt, FALSE)} : nc \in other} \cup
        (IF k = "graph" THEN {<<N_axes, v>> : v \in BindVals} \cup {<<N_worlds, v>> : v \in BindVals} ELSE {})
 ResetChoices(k) ==
   IF k \in {"", "layout", "graph"} THEN {}
-  ELSE IF Mode = "mc" THEN (CASE k = "axis" -> {N_title, N_bogus} [] k = "world" -> {N_cyc} [] k = "text" -> {N_pos} [] OTHER -> {N_color})
+  ELSE IF Level < 2 THEN (CASE k = "axis" -> {N_title, N_bogus} [] k = "world" -> {N_cyc} [] k = "text" -> {N_pos} [] OTHER -> {N_color})
   ELSE {x \in L!CanonNames(k) \cup {N_bogus} : OkName(x)}
 
-ItemNames == IF Mode = "mc" THEN {NM_a, NM_b} ELSE {NM_a, NM_b, NM_w, NM_a1}
-KindWords == IF Mode = "mc" THEN {KW_axis, KW_world, KW_graph, KW_text, KW_legend}
-             ELSE {KW_axis, KW_xaxis, KW_yaxis, KW_zaxis, KW_world, KW_graph, KW_text, KW_line, KW_legend, KW_Axis}
-ParChoices == {<<>>} \cup {<<n>> : n \in ItemNames} \cup (IF Mode = "mc" THEN {} ELSE {<<NM_a, NM_b>>, <<NM_b, NM_a>>})
+FullHdr == Mode \in {"gen", "gent"} /\ cnt.secs <= (IF Mode = "gent" THEN 2 ELSE 1)
+ItemNames == IF FullHdr THEN {NM_a, NM_b, NM_w, NM_a1} ELSE {NM_a, NM_b}
+KindWords == IF FullHdr THEN {KW_axis, KW_xaxis, KW_yaxis, KW_zaxis, KW_world, KW_graph, KW_text, KW_line, KW_legend, KW_Axis}
+             ELSE IF Mode = "mc" THEN (IF MaxSecs <= 3 THEN {KW_axis, KW_world, KW_graph, KW_legend} ELSE {KW_axis, KW_world, KW_graph, KW_text, KW_legend})
+             ELSE {KW_axis, KW_world, KW_graph, KW_text, KW_line}
+ParChoices == {<<>>} \cup {<<n>> : n \in ItemNames} \cup (IF FullHdr THEN {<<NM_a, NM_b>>, <<NM_b, NM_a>>} ELSE {})
 Headers == {Hdr(kw, nm, par) : kw \in KindWords, nm \in ItemNames, par \in ParChoices}
 
 Init ==
   /\ stack = << [h |-> NoHdr, body |-> <<>>, id |-> 1] >>
   /\ text = <<>> /\ heap = <<LayImg>> /\ cnt = [secs |-> 0, opts |-> 0, rep |-> 0]
+  /\ den = Exp1(stack)
   /\ obs = [a |-> "none", arg |-> [x |-> 0], exp |-> [ret |-> "ok"]]
 
+Salt(c) == Len(c[1]) + Len(c[2].c) + Len(c[2].n) + (IF c[2].n = <<>> THEN 0 ELSE c[2].n[Len(c[2].n)])
 Build ==
-  \/ \E d \in Decos : \E c \in OptChoices(TopKind) : AddOption(c[1], c[2], d)
-  \/ \E d \in Decos : \E nm \in ResetChoices(TopKind) : AddReset(nm, d)
-  \/ \E d \in Decos : \E h \in Headers : OpenSection(h, d)
-  \/ \E d \in Decos : CloseSection(d)
+  \/ \E c \in OptChoices(TopKind) : AddOption(c[1], c[2], DecoPick(Salt(c)))
+  \/ \E nm \in ResetChoices(TopKind) : AddReset(nm, DecoPick(Len(nm)))
+  \/ \E h \in Headers : OpenSection(h, DecoPick(Len(h.kw) + Len(h.par) + h.name[Len(h.name)]))
+  \/ CloseSection(DecoPick(cnt.secs + cnt.opts))
 Next == Build \/ (\E m \in CopyModes : Probe("copy", m)) \/ Probe("dump", "") \/ CLoad
 Spec == Init /\ [][Next]_vars
 
@@ -505,15 +537,15 @@ TypeOK ==
   /\ Len(stack) \in 1..3 /\ stack[1].id = 1 /\ heap[1].kind = "layout"
   /\ cnt.secs \in 0..MaxSecs /\ cnt.opts \in 0..MaxOpts /\ cnt.rep \in 0..(MaxSecs + MaxOpts)
   /\ \A i \in 2..Len(heap) : heap[i].kind \in {"axis", "line", "text", "graph", "world"}
-                             /\ DOMAIN heap[i].r = DOMAIN L!Def2(heap[i].kind)
+                             /\ DOMAIN heap[i].r = DOMAIN Def2T[heap[i].kind]
 
-\* the heap built item by item shows exactly what the description denotes
-Refines == View2(heap, cnt.rep) = Exp1(stack)
-
-\* binding changes no property and no containment
-BindPure ==
+\* the heap built item by item shows exactly what the description denotes,
+\* and binding changes no property and no containment
+Refines ==
   LET b == Bound(heap) IN
-  b.ok => \A i \in 1..Len(heap) : b.hp[i].r = heap[i].r /\ b.hp[i].items = heap[i].items /\ b.hp[i].kind = heap[i].kind
+  /\ View2B(heap, b, cnt.rep) = den
+  /\ b.ok => \A i \in 1..Len(heap) : b.hp[i].r = heap[i].r /\ b.hp[i].items = heap[i].items /\ b.hp[i].kind = heap[i].kind
+BindPure == TRUE   \* second conjunct of Refines (one evaluation of the binding for both)
 
 \* containment preserves names and order: the items of a group are the accepted sections of its body, in order
 RECURSIVE SecNames(_, _)
@@ -522,7 +554,7 @@ SecNames(body, n) ==
   ELSE IF body[n].e = "sec" /\ KindOf(body[n].h.kw) # "" THEN Append(SecNames(body, n - 1), L!RLE(body[n].h.name))
   ELSE SecNames(body, n - 1)
 Contained ==
-  LET e == Exp1(stack)  tree == Fold(stack) IN
+  LET e == den  tree == Fold(stack) IN
   e.ret = "ok" =>
     /\ [i \in 1..Len(e.items) |-> e.items[i].name] = SecNames(tree, Len(tree))
     /\ \A i \in 1..Len(e.items) :
@@ -531,7 +563,7 @@ Contained ==
 
 \* a graph binds exactly what its text names (all its own when empty), and what is bound reads like the named item
 BindsNamed ==
-  LET e == Exp1(stack) IN
+  LET e == den IN
   e.ret = "ok" => \A i \in 1..Len(e.items) :
      LET g == e.items[i] IN
      g.kind = "graph" =>
@@ -548,8 +580,8 @@ BindsNamed ==
 CopiesEqual ==
   \A i \in 2..Len(heap) :
      LET k == heap[i].kind IN
-     /\ L!AllView2(k, L!Dup2(k, heap[i].r, 3)) = L!AllView2(k, heap[i].r)
-     /\ (k = "text" => UnitXY(heap[i].r)) => L!AllView2(k, CopyProps2(k, L!Def2(k), heap[i].r, L!NListed(k))) = L!AllView2(k, heap[i].r)
+     /\ AllView2(k, L!Dup2(k, heap[i].r, 3)) = AllView2(k, heap[i].r)
+     /\ (k = "text" => UnitXY(heap[i].r)) => AllView2(k, CopyProps2(k, Def2T[k], heap[i].r, NListedT[k])) = AllView2(k, heap[i].r)
 
 (* action properties *)
 \* an option touches the object of the innermost open section only
